@@ -103,9 +103,15 @@ CHECKS = {
         text='Each generated operation sequence is sent through the real client to a real server process and evaluated in lockstep on an identical in-process Project; replies must be equal up to tuple->list, failures must surface on the client with the server-side message, and after every fault the next request must still be answered by the same live child. Payload sizes cross every msgpack length boundary up to 4 MiB.',
         design_ref='DESIGN.md section 4 (C15)',
         note='One server per sequence; the mirror uses supp.server.Server.process in-process (dispatch semantics) - the transport, serialisation fallback and loop are what is under test; quick tier runs without Hypothesis shrinking (sequences are <= 12 steps).'),
+    'C16': dict(
+        technique='schedule exploration: harness-owned deterministic scheduler (sys.settrace line events as yield points, fake Thread/Lock/launch), exhaustive DFS with replay under a preemption bound + Hypothesis-generated schedules; fault injection with a real subprocess for close / disconnect / launch failure',
+        category='exploration',
+        text='The schedule becomes a generated input: every interleaving with at most 2 (quick) / 3 (thorough) preemptions at source-line granularity of supp/remote.py is enumerated for every scenario of up to three threads doing prepare()/first calls (also after a completed prepare and across close + second session), checking one launch per session, no exception, every call answered with its own reply, no deadlock. Real-process runs decide the close / disconnect / launch-failure clauses.',
+        design_ref='DESIGN.md section 4 (C16)',
+        note='Line granularity of remote.py only (no races inside multiprocessing.connection); the preemption-bounded part is exhaustive for its bound; liveness bounds of the real-process runs are 10-12 s.'),
 }
 
-NOT_YET = 'check not built yet in this session (planned in DESIGN.md section 4); not claimed until its command exists'
+NOT_YET = 'not claimed'
 
 
 def main():
